@@ -5,7 +5,7 @@ CLAIMED = {
         "engine": "E-CFG/E-TERM",
         "technique": "static analysis: switch accept-sets, provenance terms, dominance over Ok exit class (MIR facts)",
         "design_ref": "DESIGN.md section 4 / C18",
-        "text": "Decides statically, on the type-checked program: the check-id and filter-id tables accept exactly the assigned/supported ids; the SHA-256 refusal, the reserved-bit tests (block flags & 0x3C, null stream-flag byte, unmasked id byte) and the end-of-input test lead only to Err and dominate every successful return of the XZ decoder. All clauses of the property are covered structurally; the accept-sets are exhaustive over the 256/2^64 id values because they are read off SwitchInt terminators.",
+        "text": "Decides statically, on the type-checked program: the check-id and filter-id tables accept exactly the assigned/supported ids (classifier found by signature; switch or comparison chains, by regions) and the filter id classified is the multi-byte value as read, without narrowing; the SHA-256 refusal, the reserved-bit tests (block flags & 0x3C, null stream-flag byte, unmasked id byte) and the end-of-input test lead only to Err and dominate every successful return of the XZ decoder. All clauses of the property are covered structurally; the accept-sets are exhaustive over the 256/2^64 id values because they are read off SwitchInt terminators.",
         "note": "Trusts rustc's MIR and the documented Read/BufRead contracts; `is_eof` is taken to mean fill_buf().is_empty() (checked under C13).",
     },
 }
@@ -13,7 +13,7 @@ CLAIMED["C12"] = {
     "engine": "E-CFG/E-TERM",
     "technique": "static analysis: def-use classification of every Result, provenance of raw read/write counts, dominance of flush/write_all, reachability after failed writes (MIR facts)",
     "design_ref": "DESIGN.md section 4 / C12",
-    "text": "Decides statically for all ~200 fallible call sites of the crate: no Result<_, io::Error|error::Error> is dropped or swallowed (an explicit table of three accepted idioms, each proven to read an in-memory Cursor<&[u8]>); raw Write::write / Read::read counts are accounted exactly (adapters) or consumed (loops); every successful decompress/finish passes LzBuffer::finish, which write_all's the pending window and flushes; after a failed sink write only error conversion and drops follow; no std buffering writer over a caller's sink is dropped unflushed on a successful path (Drop discards write errors). Declined: that the bytes already written are the correct prefix (value-level).",
+    "text": "Decides statically for all ~200 fallible call sites of the crate: no Result<_, io::Error|error::Error> is dropped or swallowed (an explicit table of three accepted idioms, each proven to read an in-memory Cursor<&[u8]>); raw Write::write / Read::read counts are accounted exactly (adapters) or consumed (loops); every successful decompress/finish passes LzBuffer::finish, which write_all's the pending window and flushes; after a failed sink write only error conversion and drops follow; no std buffering writer over a caller's sink is dropped unflushed on a successful path (Drop discards write errors); the window's finish is reachable only from the success edge of the decoding step that fed it. Declined: that the bytes already written are the correct prefix (value-level).",
     "note": "Trusts rustc's MIR and that Write::write_all loops over short writes (std contract).",
 }
 CLAIMED["C16"] = {
@@ -36,14 +36,14 @@ CLAIMED["C07"] = {
     "engine": "E-AI + E-CFG/E-TERM",
     "technique": "static analysis: abstract interpretation over MIR (linear forms + facts, tabulated inlining, most-general-client harness per public type) refuting every panic-capable site; loop classification; allocation-size bounds",
     "design_ref": "DESIGN.md section 4 / C07",
-    "text": "Decides statically: (R1) each of the ~145 panic-capable MIR sites (overflow/bounds/division asserts with overflow checks on, panicking std calls, explicit panics) reachable from any public decoding entry point - one-shot functions, the streaming decoder under any call sequence, the raw decoders with any accepted parameters - is refuted by abstract interpretation or matches an argued entry of rules/justified.json whose side-conditions are re-checked; unmodelled external callees fail closed; (R2) every loop is iterator-driven, exactly unrolled, or cannot go round without a consuming/producing call; (R3) every sized allocation is bounded by 2^23 or is unit growth by data. Declined: that finite input cannot drive unbounded output (range-coder numerics); heap numbers.",
+    "text": "Decides statically: (R1) each of the ~145 panic-capable MIR sites (overflow/bounds/division asserts with overflow checks on, panicking std calls, explicit panics) reachable from any public decoding entry point - one-shot functions, the streaming decoder under any call sequence, the raw decoders with any accepted parameters - is refuted by abstract interpretation or matches an argued entry of rules/justified.json whose side-conditions are re-checked (who-writes, validated stores, callers, and 'only from these entry points'); every construction of the circular window carries the obligation dict_size >= 1; unmodelled external callees fail closed; (R2) every loop is iterator-driven, exactly unrolled, or cannot go round without a consuming/producing call; (R3) every sized allocation is bounded by 2^23 or is unit growth by data. Declined: that finite input cannot drive unbounded output (range-coder numerics); heap numbers.",
     "note": AI_NOTE,
 }
 CLAIMED["C08"] = {
     "engine": "E-CFG/E-TERM",
     "technique": "static analysis: per-arm read widths, provenance of the stored size, dominance/path checks of size test, final equality and end-marker acceptance (MIR facts)",
     "design_ref": "DESIGN.md section 4 / C08",
-    "text": "Decides statically: read_header consumes 13/13/5 bytes per option (resolved read widths, through local helpers); the size in effect depends only on the header field resp. only on the caller's value per option arm; the size test opens every round of the decoding loop (ordering comparison); with a size in effect every Finish-mode success (from the Some edge of every test of the size, including the end-marker exit of the loop) passes a test whose truth table is produced == size and whose mismatch edge is Err; the end marker is accepted only behind distance == 0xFFFF_FFFF and a true is_finished_ok (code == 0 and end of input); match lengths handed to the window never depend on the size in effect. Declined: that the produced count equals the declared one for a given stream (value-level).",
+    "text": "Decides statically: LzmaParams.unpacked_size and DecoderState.unpacked_size are written (or lent mutably) only by read_header / the constructors / set_unpacked_size; read_header consumes 13/13/5 bytes per option (resolved read widths, through local helpers); the size in effect depends only on the header field resp. only on the caller's value per option arm; the size test opens every round of the decoding loop (ordering comparison); with a size in effect every Finish-mode success (from the Some edge of every test of the size, including the end-marker exit of the loop) passes a test whose truth table is produced == size and whose mismatch edge is Err; the end marker is accepted only behind distance == 0xFFFF_FFFF and a true is_finished_ok (code == 0 and end of input); match lengths handed to the window never depend on the size in effect. Declined: that the produced count equals the declared one for a given stream (value-level).",
     "note": "Trusts rustc's MIR.",
 }
 CLAIMED["C11"] = {
@@ -57,14 +57,14 @@ CLAIMED["C13"] = {
     "engine": "E-AI + E-CFG/E-TERM",
     "technique": "static analysis: provenance of fill_buf slices and raw read counts, loop-shape check of the padding scan, effect check of counting/digesting adapters, E-AI reachability of variable-length reads",
     "design_ref": "DESIGN.md section 4 / C13",
-    "text": "Decides statically, under the documented Read/BufRead contracts: the size/content of a peeked buffer flows only into emptiness tests, the scan-consume-all loop (which must loop back to fill_buf), forwarders, or the Partial-mode look-ahead; variable-length reads occur only in adapters, on in-memory cursors, or in code unreachable from the one-shot entries; the counting adapter counts exactly what it forwards; the block-header reader is drained before its digest is compared. Declined: the streaming decoder under arbitrary write chunking (C05).",
+    "text": "Decides statically, under the documented Read/BufRead contracts: the size/content of a peeked buffer flows only into emptiness tests, the scan-consume-all loop (which must loop back to fill_buf), forwarders, or the Partial-mode look-ahead; variable-length reads occur only in adapters, on in-memory cursors, or in code unreachable from the one-shot entries; the counting adapter counts exactly what it forwards and a digesting adapter updates its digest once with exactly buf[..n] of its single inner call and returns n; the block-header reader is drained before its digest is compared. Declined: the streaming decoder under arbitrary write chunking (C05).",
     "note": AI_NOTE,
 }
 CLAIMED["C14"] = {
     "engine": "E-CFG/E-TERM",
     "technique": "static sibling agreement: per-field provenance terms of reset_state vs constructor (field list from the ADT), dominance of reset_state in the reset entry points",
     "design_ref": "DESIGN.md section 4 / C14",
-    "text": "Decides statically: for every field of the decoder state (taken from the ADT definition, so a new field becomes an obligation) reset_state stores on every path the same value the constructor builds, with two documented exceptions; the literal table is refilled or re-created on both branches; LzmaDecoder::reset / Lzma2Decoder::reset call reset_state unconditionally with the constructor's properties; sizes cannot leak across LZMA2 resets; window and range decoder are per-call locals.",
+    "text": "Decides statically: for every field of the decoder state (taken from the ADT definition, so a new field becomes an obligation) reset_state stores on every path the same value the constructor builds (an in-place reset method is compared recursively with the field type's constructor, element loops must cover the whole array), with two documented exceptions; the size in effect is written only by the constructors and set_unpacked_size; the literal table is refilled or re-created on both branches; LzmaDecoder::reset / Lzma2Decoder::reset call reset_state unconditionally with the constructor's properties; sizes cannot leak across LZMA2 resets; window and range decoder are per-call locals.",
     "note": "Trusts rustc's MIR.",
 }
 
@@ -72,7 +72,7 @@ CLAIMED["C09"] = {
     "engine": "E-CFG/E-TERM",
     "technique": "static analysis: distance guards located by operand provenance in every implementor of the window trait, Err-only failing edges, dominance over every buffer access; field privacy",
     "design_ref": "DESIGN.md section 4 / C09",
-    "text": "Decides statically for both window implementations (enumerated from the impl list): last_n and append_lz test dist > bytes produced (and dist > dict_size for the circular window), the failing edges reach only Err, and the tests dominate every access to the buffer and every append in the function; the buffer field is private to the window module and the symbol decoder uses only the guarded trait methods; the circular copy reads at the wrapped running offset; the LZMA2 window is emptied (buf cleared, len zeroed) at exactly the dictionary resets the format prescribes (C02.R1). Declined: that guarded cells hold the right bytes (value-level).",
+    "text": "Decides statically for both window implementations (enumerated from the impl list): last_n and append_lz test dist > bytes produced (and dist > dict_size for the circular window), the failing edges reach only Err, and the tests dominate every access to the buffer and every append in the function; the buffer field is private to the window module and the symbol decoder uses only the guarded trait methods; the circular copy reads at the wrapped running offset; the dictionary bound is max(header field, 4096) (C01.R1 evaluation); the LZMA2 window is emptied (buf cleared, len zeroed) at exactly the dictionary resets the format prescribes (C02.R1). Declined: that guarded cells hold the right bytes (value-level).",
     "note": "Trusts rustc's MIR and privacy checking.",
 }
 CLAIMED["C10"] = {
@@ -86,7 +86,7 @@ CLAIMED["C17"] = {
     "engine": "E-CFG/E-TERM",
     "technique": "static analysis: guards of the LZMA2 chunk parser by operand provenance with Err-only edges and dominance; provenance of the io::Take limit and of the output target; shared C08 final-equality / copy-length rules",
     "design_ref": "DESIGN.md section 4 / C17",
-    "text": "Decides statically: status bytes other than 0/1/2 reach only the LZMA chunk parser, whose first action is status & 0x80 == 0 -> Err; props >= 225 and lc + lp > 4 lead to Err and dominate the construction of the properties; the range decoder of a chunk reads from input.take(be16 + 1); the output target ((status & 0x1F) << 16 | be16) + 1 + produced is set before decoding and the Finish-mode final equality with unclamped copy lengths makes over/under-production an error; uncompressed chunks are one read_exact of be16 + 1 bytes. Input ending early surfaces as the read error that C12.R1 shows is propagated.",
+    "text": "Decides statically: status bytes other than 0/1/2 reach only the LZMA chunk parser, whose first action is status & 0x80 == 0 -> Err; props >= 225 and lc + lp > 4 lead to Err and dominate the construction of the properties; the range decoder of a chunk reads from input.take(be16 + 1); the output target ((status & 0x1F) << 16 | be16) + 1 + produced is set before decoding and the produced-length read that enters the target is not followed by the dictionary reset, and the Finish-mode final equality with unclamped copy lengths makes over/under-production an error; uncompressed chunks are one read_exact of be16 + 1 bytes. Input ending early surfaces as the read error that C12.R1 shows is propagated.",
     "note": "Trusts rustc's MIR; io::Take yields EOF at its limit (std contract).",
 }
 
@@ -95,21 +95,21 @@ CLAIMED["C01"] = {
     "engine": "E-CFG/E-TERM",
     "technique": "static analysis: header-field map, symbol-automaton constants, context-index terms, who-writes enumeration of the circular window, table shapes (MIR facts, provenance terms)",
     "design_ref": "DESIGN.md section 4 / C01",
-    "text": PARTIAL + "the properties byte is split as lc = b % 9, lp = b / 9 % 5, pb = b / 45 with the only rejection b >= 225 and the dictionary size clamped up to 4096; the state automaton uses the format's constants (literal <7 / <10 thresholds with decrements 3 / 6, match 7/10, rep 8/11, short rep 9/11), the rep rotation and the +2 / end-marker terms; literal and distance context indices are the format's expressions; cursor/len/buf of the circular window are written only by append_literal/set (wrap at dict_size), the buffer grows to a length in [index+1, dict_size], finish slices [0, cursor); probability tables have the format's shapes and 0x400 initialiser; every range-decoder step term (bound, bit test, both probability updates for all 2047 probabilities, normalisation, direct bits, bit-tree recurrences and indices, length-coder offsets, initial state) evaluates to the reference formula. Declined (not static): that the range-coder arithmetic yields the encoder's bits, i.e. byte-exact output - this needs value-level reasoning over 2^32-range arithmetic on every path.",
+    "text": PARTIAL + "the properties byte is split as lc = b % 9, lp = b / 9 % 5, pb = b / 45 with the only rejection b >= 225 and the dictionary size in effect is max(header field, 4096) (gated evaluation on 10 values); the state automaton uses the format's constants (literal <7 / <10 thresholds with decrements 3 / 6, match 7/10, rep 8/11, short rep 9/11), the rep rotation and the +2 / end-marker terms; literal and distance context indices are the format's expressions; cursor/len/buf of the circular window are written only by append_literal/set (wrap at dict_size), the buffer grows to a length in [index+1, dict_size], finish slices [0, cursor), last_or reads the default iff nothing was produced and otherwise cell (dict_size + cursor - 1) % dict_size (evaluated over cursor x produced x dict_size); probability tables have the format's shapes and 0x400 initialiser; every range-decoder step term (bound, bit test, both probability updates for all 2047 probabilities, normalisation, direct bits, bit-tree recurrences and indices, length-coder offsets, initial state) evaluates to the reference formula. Declined (not static): that the range-coder arithmetic yields the encoder's bits, i.e. byte-exact output - this needs value-level reasoning over 2^32-range arithmetic on every path.",
     "note": "Trusts rustc's MIR; the constants in rules/C01.py transcribe the LZMA specification.",
 }
 CLAIMED["C02"] = {
     "engine": "E-CFG/E-TERM",
     "technique": "static analysis: reset-class table read off the SwitchInt on (status >> 5) & 3, size-field provenance terms, control dependence of resets on the flags, order of the produced-length read vs the dictionary reset, sibling agreement reset_state/constructor (MIR facts)",
     "design_ref": "DESIGN.md section 4 / C02",
-    "text": PARTIAL + "for all 128 control bytes 0x80..0xFF the dictionary reset / state reset / read of new properties happen exactly for >= 0xE0 / >= 0xA0 / >= 0xC0 (gated evaluation of the decisions found by what they guard - independent of how the table is spelled) and status 1/2 map to uncompressed chunks with/without dictionary reset; unpacked/packed/uncompressed sizes are the format's big-endian terms; the window is reset iff reset_dict, the decoder state iff reset_state with new-or-stored properties, and nothing else in the chunk parser modifies the state; the output target reads the produced length after the dictionary reset; a state reset re-initialises every field of the decoder state; uncompressed bytes extend the same history and advance the produced length by the slice length. Declined: the payload of compressed chunks (C01's declined part).",
+    "text": PARTIAL + "for all 128 control bytes 0x80..0xFF the dictionary reset / state reset / read of new properties happen exactly for >= 0xE0 / >= 0xA0 / >= 0xC0 (gated evaluation of the decisions found by what they guard - independent of how the table is spelled) and status 1/2 map to uncompressed chunks with/without dictionary reset; the chunk parser (with its classification helpers) builds an error only for control byte < 0x80, properties >= 225 or lc + lp > 4; unpacked/packed/uncompressed sizes are the format's big-endian terms; the window is reset iff reset_dict, the decoder state iff reset_state with new-or-stored properties, and nothing else in the chunk parser modifies the state; the output target reads the produced length after the dictionary reset; a state reset re-initialises every field of the decoder state; uncompressed bytes extend the same history and advance the produced length by the slice length. Declined: the payload of compressed chunks (C01's declined part).",
     "note": "Trusts rustc's MIR; the table in rules/C02.py transcribes the LZMA2 format.",
 }
 CLAIMED["C03"] = {
     "engine": "E-CFG/E-TERM",
     "technique": "static analysis: extraction of the container-arithmetic terms from MIR and their exhaustive/residue-covering evaluation under the compiled integer widths against the format's formulas; control dependence; must-pass-through (MIR facts)",
     "design_ref": "DESIGN.md section 4 / C03",
-    "text": PARTIAL + "block and index padding is (-count) mod 4 (term evaluated on all residues and near 2^32); multi-byte integers use (byte & 0x7F) << 7i, continuation bit 0x80 (all 256 byte values), at most 9 bytes; the block header spans 4b - 1 bytes for all 255 size bytes with no overflow in the compiled widths; the byte counter feeding a block's index record is created per block and the record is (count after the check field - padding, decoded length); the check field is 0/4/8 bytes little-endian compared with the checksum of the block's bytes; optional size fields are read iff flag bits 0x40/0x80 and the filter count is (flags & 3) + 1 for all 256 flag bytes; the block loop dispatches 0 -> index (leave) / other -> block (continue) and every Ok path of read_block writes the block to the sink once; the container parser lets no peeked-buffer size decide anything (C13.R1 on the container code). Declined: payload decoding (C02/C01), CRC arithmetic (crc crate).",
+    "text": PARTIAL + "block and index padding is (-count) mod 4 (term evaluated on all residues and near 2^32); multi-byte integers use (byte & 0x7F) << 7i, continuation bit 0x80 (all 256 byte values), at most 9 bytes; the block header spans 4b - 1 bytes for all 255 size bytes with no overflow in the compiled widths; the byte counter feeding a block's index record is created per block and the record is (count after the check field - padding, decoded length); the check field is 0/4/8 bytes little-endian compared with the checksum of the block's bytes; the compressed-size field of the header is present iff flag bit 0x40 and the uncompressed-size field iff 0x80 (gated evaluation of the two Option fields for every flag byte), compressed first, and the filter count is (flags & 3) + 1 for all 256 flag bytes; the block loop dispatches 0 -> index (leave) / other -> block (continue) and every Ok path of read_block writes the block to the sink once; the container parser lets no peeked-buffer size decide anything (C13.R1 on the container code). Declined: payload decoding (C02/C01), CRC arithmetic (crc crate).",
     "note": "Trusts rustc's MIR; the formulas in rules/C03.py transcribe xz-file-format 1.0.4; evaluates extracted expression terms (not the program).",
 }
 
@@ -132,7 +132,7 @@ CLAIMED["C15"] = {
     "engine": "E-CFG/E-TERM",
     "technique": "static who-may-emit enumeration with control dependence on the update flag; shared C05 rules (commit protocol, staged-slice provenance, refill guard evaluation); who-reads enumeration and control dependence / must-pass-through of allow_incomplete in Stream::finish (MIR facts)",
     "design_ref": "DESIGN.md section 4 / C15",
-    "text": PARTIAL + "the window is extended only by append calls of the symbol decoder under update = true (a dry run cannot emit, committed symbols are never revised); symbols are committed only after a successful dry run or with the full look-ahead; readers over staging arrays never see bytes beyond the fill position and staged bytes are neither dropped nor duplicated; the carry-over buffer is refilled whenever it has room (so the decoder lags by at most one symbol's input); allow_incomplete is read only in Stream::finish where it guards only the final end-of-stream process call, and every Ok path of the Data arm passes the window flush; window bytes reach the sink at exactly two sites (whole buffer at the wrap, [0, cursor) at finish). Declined (not static): the 64-byte lag figure and prefix equality at value level.",
+    "text": PARTIAL + "the window is extended only by append calls of the symbol decoder under update = true (a dry run cannot emit, committed symbols are never revised); symbols are committed only after a successful dry run or with the full look-ahead; readers over staging arrays never see bytes beyond the fill position and staged bytes are neither dropped nor duplicated; the carry-over buffer is refilled whenever it has room (so the decoder lags by at most one symbol's input); allow_incomplete is read only in Stream::finish where it guards only the final end-of-stream process call, and every Ok path of the Data arm passes the window flush; window bytes reach the sink at exactly two sites (whole buffer at the wrap, [0, cursor) at finish) and cursor/len/buf of the window are written only by append_literal/set (C01.R4). Declined (not static): the 64-byte lag figure and prefix equality at value level.",
     "note": "Trusts rustc's MIR.",
 }
 NOT_APPLICABLE = {}
